@@ -14,6 +14,11 @@ check precedes the instant's control.
   positions;
 * `release_only_if`: a held powertrain is released only when the motor's (previously recorded)
   net torque points in the direction commanded by the duty in force.
+* history level — `run_safe`, `first_safe`, `schedule_safe`: the four clauses above hold between
+  **every two consecutive recorded instants** (`SafeRel`, the duty in force being the one recorded at
+  the earlier instant) of every run, continued or fresh, with any stop condition, and along every
+  schedule of runs and resets; the first instant of a fresh run is judged against the attribute the
+  motor had before the run.
 The criterion `f > cos α · tan β` for the flag itself is C10's theorem.
 -/
 
@@ -115,6 +120,89 @@ theorem release_only_if (c : Cfg) (s s' : St) (t : Q) (hlocked : s.locked = true
             · rw [hlocked] at hrel; simp at hrel
           · rw [hlocked] at hrel; simp at hrel
 
+
+/-- what C13 demands between two consecutive instants `a`, `b` of a run on a self-locking powertrain:
+    sign safety of the motor speed w.r.t. the duty cycle in force (the one recorded at `a`), standstill
+    while held, release only with the motor's net torque in the commanded direction -/
+def SafeRel (c : Cfg) (a b : Rec) : Prop :=
+  (a.pwm = 0 → b.speed.headD 0 = 0) ∧
+  (0 < a.pwm → -c.tolW ≤ b.speed.headD 0) ∧
+  (a.pwm < 0 → b.speed.headD 0 ≤ c.tolW) ∧
+  (b.locked = true → b.speed = zeros (c.links.length + 1) ∧ b.acc = zeros (c.links.length + 1)) ∧
+  (a.locked = true → b.locked = true → lastD b.pos = lastD a.pos) ∧
+  (a.locked = true → b.locked = false →
+    (c.tolT < a.torque.headD 0 ∧ 0 < a.pwm) ∨ (a.torque.headD 0 < -c.tolT ∧ a.pwm < 0))
+
+theorem step_safe (c : Cfg) (hsl : c.sl = true) (htol : 0 ≤ c.tolW) (dt : Q)
+    (s s' : St) (t : Q) (a b : Rec) (hinv : Inv2 c s) (h : stepAt c dt s t = .ok s')
+    (hb : s'.recs = s.recs ++ [b]) (ha : s.recs.getLast? = some a) : SafeRel c a b := by
+  obtain ⟨hpwm, hlk, hpos, hspeed, hacc, hmt⟩ := hinv.2 a ha
+  have hmem : a ∈ s.recs := List.mem_of_getLast? ha
+  have haok := hinv.1.1 a hmem
+  unfold stepAt at h
+  have hinv' : (integrate s dt).locked = true → c.sl = true := by simpa [integrate] using hinv.1.2
+  obtain ⟨r, hr, h0, hpos', hneg⟩ := sign_safe c (integrate s dt) s' t hsl htol h
+  have hrb : r = b := by
+    have : s.recs ++ [r] = s.recs ++ [b] := by rw [← hb]; simpa [integrate] using hr.symm
+    simpa using List.append_cancel_left this
+  subst hrb
+  obtain ⟨r2, hr2, hok, _, hl2, hp2, _, _, _, hpp2, _⟩ := compute_recOK c (integrate s dt) s' t hinv' h
+  have hr2b : r2 = r := by
+    rw [hr] at hr2; simpa using (List.append_cancel_left hr2).symm
+  subst hr2b
+  have hpw : (integrate s dt).pwm = a.pwm := by simpa [integrate] using hpwm
+  refine ⟨by rw [← hpw]; exact h0, by rw [← hpw]; exact hpos', by rw [← hpw]; exact hneg, hok.lockedStill, ?_, ?_⟩
+  · intro hla _
+    obtain ⟨hs0, ha0⟩ := haok.lockedStill hla
+    rw [← hp2, hpp2]
+    have e1 : s.speed = 0 := by rw [hspeed, hs0]; exact lastD_zeros _
+    have e2 : s.acc = 0 := by rw [hacc, ha0]; exact lastD_zeros _
+    simp [integrate, e1, e2, hpos]
+  · intro hla hlb
+    have hlocked : (integrate s dt).locked = true := by simpa [integrate, hlk] using hla
+    have hrel : s'.locked = false := by rw [hl2]; exact hlb
+    obtain ⟨T, hT, hcase⟩ := release_only_if c (integrate s dt) s' t hlocked h hrel
+    have : T = a.torque.headD 0 := by
+      have : (integrate s dt).mtorque = some (a.torque.headD 0) := by simpa [integrate] using hmt
+      rw [this] at hT; simpa using hT.symm
+    rw [this, hpw] at hcase
+    exact hcase
+
+/-- C13 at history level: along every run (continued or fresh) of a self-locking powertrain, every
+    two consecutive recorded instants satisfy `SafeRel`, whatever the load, the controller and the
+    stop condition -/
+theorem run_safe (c : Cfg) (hsl : c.sl = true) (htol : 0 ≤ c.tolW) (dt : Q) (n : Nat) (stop)
+    (s s' : St) (hinv : Inv2 c s) (h : run c dt n stop s = .ok s') :
+    ∃ new, s'.recs = s.recs ++ new ∧ Pairs (SafeRel c) (s.recs.getLast?.toList ++ new) ∧ Inv2 c s' :=
+  run_pairs c dt n stop (SafeRel c) (fun s s' t a b hi hs hb ha => step_safe c hsl htol dt s s' t a b hi hs hb ha) s s' hinv h
+
+/-- the first instant of a fresh run: the duty cycle in force is the motor's attribute before the run -/
+theorem first_safe (c : Cfg) (hsl : c.sl = true) (htol : 0 ≤ c.tolW) (dt : Q) (n : Nat) (stop)
+    (s s' : St) (h0 : s.recs = []) (h : run c dt n stop s = .ok s') :
+    ∃ r0, s'.recs.head? = some r0 ∧
+      (s.pwm = 0 → r0.speed.headD 0 = 0) ∧ (0 < s.pwm → -c.tolW ≤ r0.speed.headD 0) ∧
+      (s.pwm < 0 → r0.speed.headD 0 ≤ c.tolW) := by
+  unfold run at h
+  have hl : lastTime s = none := by simp [lastTime, h0]
+  simp only [hl] at h
+  cases hc : compute c { s with locked := false } 0 with
+  | error e => simp [hc] at h
+  | ok s0 =>
+    simp only [hc] at h
+    obtain ⟨r, hr, hz, hp, hn⟩ := sign_safe c { s with locked := false } s0 0 hsl htol hc
+    obtain ⟨new, hnew, _⟩ := loop_pairs c dt stop (fun _ _ => True) (fun _ _ _ _ _ _ _ _ _ => trivial) _ s0 s'
+      (compute_inv2 c { s with locked := false } s0 0 ⟨by intro x hx; rw [h0] at hx; simp at hx, by intro hh; simp at hh⟩ hc) h
+    refine ⟨r, ?_, hz, hp, hn⟩
+    rw [hnew, hr]; simp [h0]
+
+/-- C13 over whole schedules: after any sequence of runs (any time steps, durations, stop
+    conditions; fresh or continued) and resets on a self-locking powertrain, all consecutive
+    recorded instants satisfy `SafeRel` -/
+theorem schedule_safe (c : Cfg) (hsl : c.sl = true) (htol : 0 ≤ c.tolW) (ops : List Op) (hops : RunsAndResets ops)
+    (p v : Q) (s' : St) (h : exec c ops (St.init p v) = .ok s') : Pairs (SafeRel c) s'.recs :=
+  (exec_pairs c (SafeRel c) (fun dt s s' t a b hi hs hb ha => step_safe c hsl htol dt s s' t a b hi hs hb ha)
+    ops hops _ s' (init_inv2 c p v) trivial h).1
+
 /-! ### non-vacuity: a self-locking chain overloaded backwards is held from the second instant on -/
 def exCfg : Cfg :=
   { J0 := 1, links := [⟨30, 2/5, 1/2, true⟩], sl := true, tolW := 0, tolT := 0,
@@ -122,5 +210,7 @@ def exCfg : Cfg :=
     load := fun _ _ _ => 500, control := none }
 example : (match exec exCfg [.run (1/4) 3 none] (St.init 0 0) with
     | .ok s => s.recs.map (·.locked) | .error _ => []) = [false, true, true, true] := by decide +kernel
+
+example : RunsAndResets [.run (1/4) 3 none, .reset, .run (1/8) 2 none] := by simp [RunsAndResets]
 
 end Gearpy.C13
